@@ -38,22 +38,24 @@ theorem rule_origin (d : Desc) (c : Compiled) (off : Option (Int × Int)) (s : S
 theorem genSam_ok (d : Desc) (c : Compiled) (off : Option (Int × Int)) (rules : List SamRule)
     (h : genSam d c off = .ok rules) :
     rules = samRules d c off ∧ checkNoOverlap (samAsMap rules) = true ∧
-    ∀ s ∈ rules, s.range.stop ≤ (2 : Int) ^ d.addrW := by
+    (∀ s ∈ rules, s.range.stop ≤ (2 : Int) ^ d.addrW) ∧ (rules.map (·.name)).Nodup := by
   unfold genSam at h
   simp only at h
-  split at h
-  · cases h
-  · rename_i h1
-    split at h
-    · cases h
-    · rename_i h2
-      cases h
-      refine ⟨rfl, by simpa using h2, ?_⟩
-      intro s hs
-      have : ¬ (samRules d c off).any (fun r => decide (r.range.stop > (2 : Int) ^ d.addrW)) = true := h1
-      simp only [List.any_eq_true, decide_eq_true_eq, not_exists, not_and] at this
-      have := this s hs
-      omega
+  by_cases h1 : ((samRules d c off).any fun r => decide (r.range.stop > (2 : Int) ^ d.addrW)) = true
+  · rw [if_pos h1] at h; cases h
+  rw [if_neg h1] at h
+  by_cases h0 : (decide ((samRules d c off).map (·.name)).Nodup) = false
+  · rw [if_pos h0] at h; cases h
+  rw [if_neg h0] at h
+  by_cases h2 : checkNoOverlap (samAsMap (samRules d c off)) = false
+  · rw [if_pos h2] at h; cases h
+  rw [if_neg h2] at h
+  cases h
+  refine ⟨rfl, by simpa using h2, ?_, by simpa using h0⟩
+  intro s hs
+  simp only [List.any_eq_true, decide_eq_true_eq, not_exists, not_and] at h1
+  have := h1 s hs
+  omega
 
 /-- **overlapping expanded ranges are rejected** (for well-formed ranges) -/
 theorem overlap_rejected (d : Desc) (c : Compiled) (off : Option (Int × Int))
@@ -63,11 +65,13 @@ theorem overlap_rejected (d : Desc) (c : Compiled) (off : Option (Int × Int))
   simp only
   split
   · exact ⟨_, rfl⟩
-  · have : checkNoOverlap (samAsMap (samRules d c off)) = false := by
-      cases hc : checkNoOverlap (samAsMap (samRules d c off)) with
-      | false => rfl
-      | true => exact absurd ((checkNoOverlap_iff hv).1 hc) hov
-    rw [if_pos this]; exact ⟨_, rfl⟩
+  · split
+    · exact ⟨_, rfl⟩
+    · have : checkNoOverlap (samAsMap (samRules d c off)) = false := by
+        cases hc : checkNoOverlap (samAsMap (samRules d c off)) with
+        | false => rfl
+        | true => exact absurd ((checkNoOverlap_iff hv).1 hc) hov
+      rw [if_pos this]; exact ⟨_, rfl⟩
 
 /-- **every address of a declared range decodes to exactly one rule, the owner's** -/
 theorem sam_decodes_owner (d : Desc) (c : Compiled) (off : Option (Int × Int)) (rules : List SamRule)
@@ -78,7 +82,7 @@ theorem sam_decodes_owner (d : Desc) (c : Compiled) (off : Option (Int × Int)) 
     ∃ s ∈ rules, s.range = r ∧ s.dest = subOffset ni.id off ∧ covers s a ∧
       (∀ s' ∈ rules, covers s' a → s'.range.start = r.start ∧ s'.range.stop = r.stop) ∧
       r.stop ≤ (2 : Int) ^ d.addrW := by
-  obtain ⟨hrules, hno, hfit⟩ := genSam_ok d c off rules h
+  obtain ⟨hrules, hno, hfit, _⟩ := genSam_ok d c off rules h
   subst hrules
   obtain ⟨s, hsm, hsr, hsd⟩ := rule_exists d c off ni hni hs r hr
   refine ⟨s, hsm, hsr, hsd, by unfold covers; rw [hsr]; exact ⟨h1, h2⟩, ?_, by rw [← hsr]; exact hfit s hsm⟩
